@@ -56,7 +56,7 @@ class Guard:
     def formula(self, subst=None):
         if self.kind == "catch":
             return F.T
-        if self.kind == "post":
+        if self.kind in ("post", "assert"):
             return post_formula(self.vals, subst)
         if self.kind == "case":
             alts = []
@@ -69,8 +69,8 @@ class Guard:
         return f if self.pol else F.mk_not(f)
 
     def __repr__(self):
-        if self.kind == "post":
-            return "post(stmt@%s)" % self.line
+        if self.kind in ("post", "assert"):
+            return "%s(stmt@%s)" % (self.kind, self.line)
         if self.kind == "case":
             return "case %s in {%s}" % (show(self.expr), ", ".join(v if isinstance(v, str) else show(v) for v in self.vals))
         return "%s%s@%s" % ("" if self.pol else "!", show(self.expr), self.line)
@@ -193,9 +193,11 @@ class SiteWalker:
                 continue
             self.stmt(st, g, loops)
             k = st.get("k")
-            if k in ("if", "while", "for", "foreach", "do", "try", "seq") or (
-                    k == "expr" and is_expr(st.get("e")) and st["e"][0] == "asserted" and st.get("m") in HARD_ASSERT_MACROS):
+            if k in ("if", "while", "for", "foreach", "do", "try", "seq"):
                 g = g + [Guard(None, True, st.get("l"), "post", st)]
+            elif k == "expr" and is_expr(st.get("e")) and st["e"][0] == "asserted" and st.get("m") in HARD_ASSERT_MACROS:
+                # a failed hard assertion aborts: later code may assume it (kind "assert" lets rules treat it as a premise)
+                g = g + [Guard(None, True, st.get("l"), "assert", st)]
 
     def stmt(self, s, guards, loops):
         if not isinstance(s, dict):
